@@ -35,6 +35,11 @@ SHRINK_FIELDS = ['intents', 'faults']
 def generate(seed, tier, index):
     sc = c06.gen_session(seed, tier, CMD_WEIGHTS, ncmd_range=(2, 9), initial_filter_p=0.3, pid=ID)
     rng = random.Random('%d/gen17' % seed)
+    if rng.random() < 0.3:
+        # enum-labelled arguments (wl_shm.format) early in the session, so that label matchers have something to select
+        head = [['act', 0, 'shm', k % 4, 0, rng.randrange(1 << 30)] for k in range(rng.randint(4, 7))]
+        sc['intents'][0:0] = head
+        sc['intents'] += [['cmd', rng.choice(['list (argb8888)', 'list (xrgb8888)', 'list wl_shm.format(argb8888)', 'list (format=xrgb8888)']), {'t': 'other'}]]
     sc['config']['suppress'] = rng.random() < 0.2
     sc['config']['colour_first'] = rng.random() < 0.5
     if rng.random() < 0.15:
